@@ -266,7 +266,7 @@ def boundary_msgs(rng):
             left -= l + 1
         out.append(("name%d" % total, hdr(qd=1) + raw_name(labels) + b"\0" + q_tail))
     # pointer chains of k hops ending in a real name at offset 12
-    for hops in (1, 2, 9, 10, 11, 12):
+    for hops in (1, 2, 9, 10, 11, 12, 126, 127, 128, 129):
         b = bytearray(hdr(qd=1, an=1))
         b += b"\x03abc\x00" + q_tail            # question at 12
         # chain: pointer k at position p_k -> p_{k-1} ... -> 12
